@@ -60,9 +60,12 @@ var c16OptCols = []qCol{
 	{"Temp C", "DOUBLE"}, {"msg", "VARCHAR"},
 }
 
-var c16Hosts = []string{"h1", "h2", "h3", "H4", "it's"}
-var c16Regions = []string{"eu", "us", "FROM mem", "ap-1"}
-var c16Msgs = []string{"ok", "a -- b", "x /* y */ z", "JOIN prod.cpu", "", "select 1 from cpu"}
+// Values with a blank come in pairs that differ only in the amount of
+// whitespace ('rack 1' / 'rack  1'): the whitespace-sibling queries of
+// c16Siblings select different rows for the two spellings.
+var c16Hosts = []string{"h1", "h2", "h3", "H4", "it's", "rack 1", "rack  1"}
+var c16Regions = []string{"eu", "us", "FROM mem", "FROM  mem", "ap-1"}
+var c16Msgs = []string{"ok", "a -- b", "a  -- b", "x /* y */ z", "x  /* y */ z", "JOIN prod.cpu", "JOIN  prod.cpu", "", "select 1 from cpu"}
 
 func c16SQLStr(s string) string { return "'" + strings.ReplaceAll(s, "'", "''") + "'" }
 
@@ -579,10 +582,17 @@ func (g *c16Gen) aggregate(srcs []c16Src) (string, string) {
 // pred returns a predicate over non-time-literal comparisons.
 func (g *c16Gen) pred(srcs []c16Src) string {
 	for tries := 0; tries < 5; tries++ {
-		switch rapid.IntRange(0, 10).Draw(g.t, "pred") {
+		switch rapid.IntRange(0, 12).Draw(g.t, "pred") {
+		case 11, 12:
+			// a value that exists in two whitespace spellings (see c16Siblings)
+			for _, sc := range srcs {
+				if c16HasCol(sc, "host") {
+					return sc.Alias + ".host = " + rapid.SampledFrom([]string{"'rack 1'", "'rack  1'"}).Draw(g.t, "rack")
+				}
+			}
 		case 0, 1:
 			if r, _, ok := g.pickCol(srcs, "VARCHAR"); ok {
-				v := rapid.SampledFrom([]string{"h1", "h2", "H4", "it's", "eu", "FROM mem", "a -- b", "x /* y */ z", "JOIN prod.cpu"}).Draw(g.t, "sv")
+				v := rapid.SampledFrom([]string{"h1", "h2", "H4", "it's", "eu", "FROM mem", "a -- b", "x /* y */ z", "JOIN prod.cpu", "rack 1", "rack 1", "rack  1"}).Draw(g.t, "sv")
 				op := rapid.SampledFrom([]string{"=", "<>", ">="}).Draw(g.t, "sop")
 				return r + " " + op + " " + c16SQLStr(v)
 			}
@@ -1199,6 +1209,15 @@ func c16CheckRef(e *qEnv, q c16Query, hdr string, label string, ref qResult) (st
 	case !arc.OK && ref.OK:
 		return "arc-fails-" + label, fmt.Sprintf("arc status=%d err=%q; reference returned %d rows", arc.Status, arc.Err, len(ref.Rows))
 	case arc.OK && !ref.OK:
+		// A sibling whose comment swallowed a table name may name something that
+		// is not a measurement (an alias): arc answers a reference to a
+		// measurement without files with an empty success by design, DuckDB
+		// reports an unknown table. Only tolerated for those derived texts.
+		if strings.HasPrefix(label, "pair-comment-nl") && len(arc.Rows) == 0 && len(arc.Cols) == 0 &&
+			strings.Contains(ref.Err, "Catalog Error: Table with name") {
+			verifkit.Class("pair:comment-nl:unknown-measurement-empty")
+			return "", ""
+		}
 		return "reference-fails-" + label, fmt.Sprintf("arc returned %d rows; reference err=%q", len(arc.Rows), ref.Err)
 	}
 	if d := qCompare(ref, arc, q.Ordered); d != "" {
@@ -1258,6 +1277,102 @@ func c16RunQuery(t *rapid.T, e *qEnv, d *c16Data, q c16Query) {
 	}
 }
 
+// c16Siblings derives statements that differ from sql ONLY in whitespace at a
+// place where whitespace is significant:
+//   - "literal-ws": one blank inside a string literal is doubled
+//     ('rack 1' -> 'rack  1'; the data holds both spellings);
+//   - "comment-nl": the newline that ends a `--` comment becomes a blank, so the
+//     comment swallows the rest of that line.
+//
+// Two such statements are different queries; anything that identifies them
+// (e.g. a whitespace-insensitive transform-cache key) answers one with the
+// other's rows. Comments generated here never contain quotes, so every ' in
+// the text delimits a literal.
+func c16Siblings(sql string) map[string]string {
+	out := map[string]string{}
+	in := false
+	for i := 0; i < len(sql); i++ {
+		if sql[i] == '\'' {
+			in = !in
+			continue
+		}
+		if in && sql[i] == ' ' {
+			out["literal-ws"] = sql[:i] + " " + sql[i:]
+			break
+		}
+	}
+	if !strings.Contains(strings.ToLower(sql), "limit") { // LIMIT without its ORDER BY is not deterministic
+		in = false
+		for i := 0; i+1 < len(sql); i++ {
+			if sql[i] == '\'' {
+				in = !in
+			}
+			if in || sql[i] != '-' || sql[i+1] != '-' {
+				continue
+			}
+			nl := strings.IndexByte(sql[i:], '\n')
+			if nl < 0 {
+				break
+			}
+			nl += i
+			rest := sql[nl+1:]
+			if e := strings.IndexByte(rest, '\n'); e >= 0 {
+				rest = rest[:e]
+			}
+			// the swallowed text must not put a quote into the comment (C15's
+			// quote-in-comment shape) and must be more than blanks
+			if !strings.ContainsAny(rest, "'\"$") && strings.TrimSpace(rest) != "" && (nl == 0 || sql[nl-1] != '\r') {
+				out["comment-nl"] = sql[:nl] + " " + sql[nl+1:]
+				break
+			}
+			i = nl
+		}
+	}
+	return out
+}
+
+// c16RunPairs runs q and each whitespace sibling back to back on the same
+// handler without clearing the transform cache, in both orders, each compared
+// with its own reference answer.
+func c16RunPairs(t *rapid.T, e *qEnv, q c16Query) {
+	sibs := c16Siblings(q.SQL)
+	for _, kind := range []string{"literal-ws", "comment-nl"} {
+		sib, ok := sibs[kind]
+		if !ok {
+			continue
+		}
+		sq := q
+		sq.SQL = sib
+		if kind == "comment-nl" {
+			sq.Ordered = false // the ORDER BY may have been swallowed
+		}
+		refQ := e.refQuery(q.SQL, c16Schema(q.Hdr))
+		refS := e.refQuery(sq.SQL, c16Schema(q.Hdr))
+		verifkit.Eval()
+		verifkit.Class("pair:" + kind)
+		if refQ.OK && refS.OK && qCompare(refQ, refS, false) != "" {
+			verifkit.Class("pair:" + kind + ":answers-differ")
+			verifkit.NonTrivial("pair\x00" + q.Hdr + "\x00" + q.SQL + "\x00" + sib)
+		}
+		steps := []struct {
+			q   c16Query
+			ref qResult
+			lab string
+		}{{q, refQ, "first"}, {sq, refS, "sibling-after-original"}}
+		for order := 0; order < 2; order++ {
+			e.h.InvalidateCaches()
+			for _, st := range steps {
+				if c, dt := c16CheckRef(e, st.q, q.Hdr, "pair-"+kind+"-"+st.lab, st.ref); c != "" {
+					t.Fatalf("VERIF-FAIL class=C16/%s\nheader: %q\nsequence on one handler, transform cache not cleared in between:\n  1: %q\n  2: %q\nfailing statement: %q\n%s",
+						c, q.Hdr, steps[0].q.SQL, steps[1].q.SQL, st.q.SQL, dt)
+				}
+			}
+			steps[0], steps[1] = steps[1], steps[0]
+			steps[0].lab, steps[1].lab = "first", "original-after-sibling"
+		}
+	}
+}
+
 func TestVerifC16_Queries(t *testing.T) {
 	perData := verifkit.Scale(24, 60)
 	var tEnv, tData, tQ time.Duration
@@ -1281,6 +1396,7 @@ func TestVerifC16_Queries(t *testing.T) {
 		for i := 0; i < perData; i++ {
 			q := c16GenQuery(t, d)
 			c16RunQuery(t, e, d, q)
+			c16RunPairs(t, e, q)
 		}
 		tEnv += t1.Sub(t0)
 		tData += t2.Sub(t1)
